@@ -36,8 +36,9 @@ LEVEL_TEXT = ("Machine-checked proof (Coq 8.16.1) over an executable model of ap
               "names survive. Tied to the code by differential correspondence on the real router(): strace-ordered file operations and FINs of scripted "
               "runs vs the model's trace, the property monitor evaluated on the observed trace, and black-box SIGTERM/SIGHUP/SIGKILL runs against a real nsqd.")
 LEVEL_NOTE = ("Trusted: Coq kernel + vm_compute; the hand-written model; the OS model (fsync durability, link/O_EXCL exclusivity are assumptions about the kernel, "
-              "'partial'); go-nsq's FIN delivery ('partial'); strace and the trace projection; correspondence is sampled. 'Exactly one file' is proved as "
-              "'some file at every instant' (during the link/unlink hand-off two names hold the content); uniqueness is not proved. Observation reported, "
+              "'partial'); go-nsq's FIN delivery ('partial'); strace and the trace projection; correspondence is sampled. 'Exactly one file' is proved at event "
+              "boundaries (C19_exactly_one_file; distinct message ids and file names assumed) and as 'some file' at every instant (during the link/unlink "
+              "hand-off two names hold the content). A second observation: updateFile leaks the descriptor of an existing file it skips as oversized. Observation reported, "
               "not a violation: after a successful work-dir move Close leaves f.out set; the next write exits fatally, the message stays owed (modelled, Example C19_ex_stale_handle, and seen in runs).")
 TECHNIQUE = "Coq invariant proof over all event histories and all crash instants + syscall-level differential correspondence (strace) + black-box kill runs"
 DESIGN_REF = "DESIGN.md §5 C19"
